@@ -15,8 +15,10 @@ CONSTANTS
   FinalReset = TRUE
   CompRebases = FALSE
   MaxUser = 0
+  CompSkips = FALSE
 INVARIANT TypeOK
 INVARIANT RowsTrue
+INVARIANT RowsCompensated
 INVARIANT NominalReproduced
 INVARIANT Reproducible
 INVARIANT EndStateNominal
